@@ -248,8 +248,12 @@ func (c *ExecCtx) conversion(st *State, v Val, to types.Type, pos token.Pos) Val
 			return Val{c.bytesToStr(st, v.T), to}
 		}
 		if v.T.Sort == SInt {
+			// string(r): UTF-8 of the code point; one byte for ASCII
 			d.Fun("rune2s", []string{SInt}, SStr)
-			return Val{App("rune2s", SStr, v.T), to}
+			r := App("rune2s", SStr, v.T)
+			st.assumeT(Imp(And(Ge(v.T, IntLit(0)), Lt(v.T, IntLit(128))), Eq(c.strLen(r), IntLit(1))))
+			st.assumeT(And(Ge(c.strLen(r), IntLit(1)), Le(c.strLen(r), IntLit(4))))
+			return Val{r, to}
 		}
 	}
 	if v.T.Sort == SStr && toS != SStr {
